@@ -7,6 +7,7 @@ ids="$@"; [ -z "$ids" ] && ids=$(ls seeded)
 for id in $ids; do
   patch=/verif/seeded/$id/patch.diff
   [ -f $patch ] || continue
+  if grep -q '"obsolete"' /verif/seeded/$id/meta.json 2>/dev/null; then echo "$id SKIPPED (marked obsolete in its meta.json)"; continue; fi
   checks=$(python3 -c "
 import json,re,sys
 m=json.load(open('/verif/seeded/$id/meta.json'))
